@@ -1,0 +1,22 @@
+//go:build verif
+
+package predictive
+
+import "github.com/moorara/algo/grammar"
+
+// VerifCell exposes the raw M[A,a] entry of a parsing table to the verification harness:
+// the productions entered in the cell (in no particular order), the raw sync flag, and
+// whether the entry exists at all.
+func VerifCell(t *ParsingTable, A grammar.NonTerminal, a grammar.Terminal) ([]*grammar.Production, bool, bool) {
+	e, ok := t.getEntry(A, a)
+	if !ok {
+		return nil, false, false
+	}
+
+	prods := make([]*grammar.Production, 0, e.Productions.Size())
+	for p := range e.Productions.All() {
+		prods = append(prods, p)
+	}
+
+	return prods, e.Sync, true
+}
